@@ -17,6 +17,9 @@ import KyupyVerif.Drv.Cycle
 import KyupyVerif.Drv.CircNet
 import KyupyVerif.Drv.VerilogLib
 import KyupyVerif.Drv.DataPath
+import KyupyVerif.Drv.Callback
+import KyupyVerif.Drv.HeapHist
+import KyupyVerif.Drv.Accum
 /-! Stateless driver extensions: each module `KyupyVerif/Drv/<Name>.lean` defines
 `handle : String → List String → Option String` (command word, remaining tokens → answer, or `none`
 when the command is not its own) and is listed in `extHandlers` below. -/
@@ -41,7 +44,10 @@ def extHandlers : List (String → List String → Option String) := [
   KV.Drv.Cycle.handle,
   KV.Drv.CircNet.handle,
   KV.Drv.VerilogLib.handle,
-  KV.Drv.DataPath.handle
+  KV.Drv.DataPath.handle,
+  KV.Drv.Callback.handle,
+  KV.Drv.HeapHist.handle,
+  KV.Drv.Accum.handle
 ]
 
 def tryExt (cmd : String) (args : List String) : Option String :=
